@@ -826,10 +826,10 @@ class Prov:
 
 def term_contains(t, pred):
     """does any subterm satisfy pred?"""
-    if pred(t):
+    if isinstance(t, tuple) and t and isinstance(t[0], str) and pred(t):
         return True
     if isinstance(t, tuple):
-        for x in t[1:]:
+        for x in (t[1:] if t and isinstance(t[0], str) else t):
             if isinstance(x, tuple) and term_contains(x, pred):
                 return True
     return False
